@@ -32,6 +32,7 @@ def main():
     ap.add_argument('--keep-as')
     ap.add_argument('--all-checks', action='store_true')
     ap.add_argument('--base', default='HEAD')
+    ap.add_argument('--baseline-repo', default='/repo')
     a = ap.parse_args()
     d = os.path.abspath(a.dir)
     meta = json.load(open(os.path.join(d, 'meta.json')))
@@ -65,13 +66,21 @@ def main():
         res['confirmed'] = bool(res['compiles'] and res['suite_ok'] and res['demo_with_patch'] != 0 and res['demo_without_patch'] == 0)
         props = [prop] if not a.all_checks else [f'C{i:02d}' for i in range(1, 21)]
         res['checks'] = {}
+        sys.path.insert(0, VERIF)
+        from sa.main import run_check
+        from sa.report import load_known
         for p in props:
             if not os.path.exists(os.path.join(VERIF, 'sa', 'rules', p.lower() + '.py')):
                 continue
-            rc, out = sh([os.path.join(VERIF, 'check'), p, '--repo', wt, '--no-evidence'])
-            viol = [l.strip() for l in out.splitlines() if l.startswith('  mesonbuild') or 'ANALYSIS-ERROR' in l]
-            res['checks'][p] = {'exit': rc, 'reports': viol[:6]}
-        res['detected_by'] = sorted(p for p, r in res['checks'].items() if r['exit'] == 1)
+            base = run_check(p, a.baseline_repo, 'quick', 0)
+            base_keys = {f.key() for f in base.findings()}
+            chk = run_check(p, wt, 'quick', 0)
+            new = [f for f in chk.findings() if f.key() not in base_keys]
+            rep = [f'{f.rule} {f.module}:{f.line} {f.function}: {f.message}'[:400] for f in new]
+            res['checks'][p] = {'new_findings': len(new), 'analysis_errors': chk.errors[:3], 'reports': rep[:6],
+                                'verdict': 'violation' if new else ('undecided' if chk.errors and not base.errors else 'silent')}
+        res['detected_by'] = sorted(p for p, r in res['checks'].items() if r['verdict'] == 'violation')
+        res['undecided_in'] = sorted(p for p, r in res['checks'].items() if r['verdict'] == 'undecided')
     finally:
         sh(['git', '-C', '/repo', 'worktree', 'remove', '--force', wt])
         shutil.rmtree(wt, ignore_errors=True)
@@ -83,9 +92,10 @@ def main():
             shutil.copy(os.path.join(d, f), os.path.join(dst, f))
         meta['confirmation'] = {k: res[k] for k in ('compiles', 'suite', 'demo_with_patch', 'demo_without_patch', 'demo_tail')}
         meta['what_was_run'] = ('tools/seedtest.py: scratch worktree of /repo HEAD; git apply patch.diff; pinned suite (4 unittest files, 107 tests); '
-                                'demo.py with and without the patch; ./check <property> --repo <scratch worktree>')
+                                'demo.py with and without the patch; every check of /verif run on the scratch worktree and on /repo, findings compared')
         meta['check_result'] = res['checks']
         meta['detected_by'] = res['detected_by']
+        meta['undecided_in'] = res['undecided_in']
         json.dump(meta, open(os.path.join(dst, 'meta.json'), 'w'), indent=1)
     return 0 if res.get('confirmed') else 4
 
